@@ -973,7 +973,7 @@ pub fn monitor_crash_image(out: &mut Sink, driver: &str, d: &str, desc: &str) {
         return;
     }
     for f in ["ht", "wal", "meta"] {
-        if std::fs::copy(format!("{d}/{f}"), format!("{r}/{f}")).is_err() {
+        if crate::image::sparse_copy(std::path::Path::new(&format!("{d}/{f}")), std::path::Path::new(&format!("{r}/{f}"))).is_err() {
             let _ = std::fs::remove_dir_all(&r);
             return;
         }
